@@ -178,6 +178,7 @@ def r1_cv(ctx, res, Tcv):
                 fld = re.split(r"[ :+\-]", part.strip().replace("*", ""))[0]
                 listed[(e["function"], fld)] = listed.get((e["function"], fld), 0) + 1
     unsat = {}
+    tgt_of = {}
     nstores = 0
     for f in prog.unit_funcs(TP):
         at, _ = FX.must_locksets(f)
@@ -202,15 +203,29 @@ def r1_cv(ctx, res, Tcv):
             signalled = has_lock and (_signal_before_unlock(f, n, cvc, (mrec, mfld), obj) or
                                       _signal_since_lock(f, n, cvc, (mrec, mfld), obj))
             key = (f.name, tgt[1])
+            tgt_of[(f.name, n["id"])] = tgt
             if has_lock and signalled:
                 res.ok("C13.R1", site(f, "store:%s.%s" % tgt), "under %s and signalled before unlock" % row["mutex"])
             else:
                 unsat.setdefault(key, []).append((f, n, has_lock))
+    def own_section(f, n, fld):
+        """The store is made by a waiter of the condition variable itself, under the mutex, after its own wait in the same
+        function (its helpers included): the consuming side of the hand-over, whichever function holds it now."""
+        cvc = field_cv.get(fld)
+        if cvc is None:
+            return False
+        for w in walk(f.body):
+            if w.get("k") == "CallExpr" and w.get("callee") == FX.WAIT and FX.lock_class(call_args(w)[0]) == cvc and \
+                    (w.get("line"), w.get("col", 0)) < (n.get("line"), n.get("col", 0)):
+                return True
+        return False
     for key, lst in unsat.items():
         allowed = listed.get(key, 0)
         for i, (f, n, has_lock) in enumerate(lst):
             if i < allowed:
                 res.ok("C13.R1", site(f, "store:%s:listed" % key[1]), "non-enabling store listed in T-cv")
+            elif has_lock and key not in listed and own_section(f, n, (tgt_of[(f.name, n["id"])] if (f.name, n["id"]) in tgt_of else None)):
+                res.ok("C13.R1", site(f, "store:%s:waiter" % key[1]), "store by the waiter itself, under the mutex, after its own wait (the consuming side)")
             else:
                 res.bad("C13.R1", site(f, "store:%s" % key[1]),
                         "store to wait-predicate field `%s` %s: a thread waiting for this change is never woken (lost wake-up)" %
@@ -646,59 +661,61 @@ def r4_r8(ctx, res):
 
     # R6 delivery
     res.floor("C13.R6", 4)
-    rn = prog.need("resultq_next", TP)
-    ev = APE.run(prog, cg, rn, bound=APE.BOUND)
+    # Decided on the paths of the result thread's main function with the file's internal functions evaluated as part of it
+    # (whether "take the next finished thread, wait for it, collect its result" is one helper, two, or written in line):
+    # per dequeued thread (one decrement of nthreads) the result is read once, cleared once and handed to the callback
+    # once; no callback without a dequeued thread; the thread leaves only when finished, nothing outstanding, queue empty.
+    rw = prog.need("result_worker", TP)
+    res.saw(rw)
+    ev = APE.run(prog, cg, rw, bound=APE.BOUND, inline=("*static",), max_paths=40000)
+    ndeq = 0
     for p in ev.paths:
-        if p.end != "exit":
-            continue
-        r = p.ret()
         evs = [e for e in p.events if e.kind != "branch"]
-        outs = [e for e in evs if e.kind == "store" and e.a == "*" + rn.params[1]["name"]]
-        clr = [e for e in evs if e.kind == "store" and e.a.endswith("->res")]
-        dec = [e for e in evs if e.kind == "store" and e.a.endswith("->nthreads")]
-        if r == ("c", 1):
-            good = len(outs) == 1 and re.search(r"->res@\d+$", APE.vstr(outs[0].b)) and len(clr) == 1 and clr[0].b == ("c", 0) and \
-                len(dec) == 1 and dec[0].b[1].endswith("-#1)")
-            res.check(bool(good), "C13.R6", site(rn, "deliver"), "a dequeued thread's result is read once, cleared, and nthreads decremented once",
-                      "delivery does not read-and-clear the result exactly once (reads %d, clears %d, nthreads stores %d)" % (len(outs), len(clr), len(dec)),
-                      rn.loc(rn.body), p.describe(rn))
-            # wait for the result: loop on running under thread.m precedes the read
-            names = [e.a for e in evs if e.kind == "call"]
-        else:
-            res.check(not outs and not dec, "C13.R6", site(rn, "no-thread"), "nothing delivered when no thread was dequeued",
-                      "a result is produced without a dequeued thread", rn.loc(rn.body), p.describe(rn))
-            # R7: leaves only when finished && nthreads == 0 and the queue is empty
-            fin = [v for (a, b), v in p.cons.items() if re.search(r"->finished@\d+$", a) and b == "#0"]
-            nth = [v for (a, b), v in p.cons.items() if re.search(r"->nthreads@\d+$", a) and b == "#0"]
-            hd = [v for (a, b), v in p.cons.items() if re.search(r"->head@\d+$", a) and b == "#0"]
-            # the last evaluation of each predicate part before the loop is left decides
+        deq = [i for i, e in enumerate(evs) if e.kind == "store" and strip_tags(e.a).endswith("->nthreads")]
+        cbs_all = [i for i, e in enumerate(evs) if e.kind == "call" and e.a.startswith("(*") and "cb" in e.a]
+        for i in deq:
+            res.check(evs[i].b[0] == "s" and evs[i].b[1].endswith("-#1)"), "C13.R6", site(rw, "deliver"),
+                      "one outstanding job is counted off per dequeued thread", "nthreads is changed by %s when a thread is dequeued" % APE.vstr(evs[i].b),
+                      rw.loc(evs[i].node), p.describe(rw))
+        if cbs_all and (not deq or cbs_all[0] < deq[0]):
+            res.bad("C13.R6", site(rw, "no-thread"), "a result is handed to the callback without a dequeued thread", rw.loc(evs[cbs_all[0]].node), p.describe(rw))
+        for k, i in enumerate(deq):
+            end = deq[k + 1] if k + 1 < len(deq) else len(evs)
+            seg = evs[i + 1:end]
+            complete = k + 1 < len(deq) or p.end == "exit"
+            clr = [e for e in seg if e.kind == "store" and strip_tags(e.a).endswith("->res")]
+            cbs = [e for e in seg if e.kind == "call" and e.a.startswith("(*") and "cb" in e.a]
+            if not complete and not cbs:
+                continue
+            ndeq += 1
+            good = len(clr) == 1 and clr[0].b == ("c", 0) and len(cbs) == 1 and cbs[0].b and re.search(r"->res@\d+$", APE.vstr(cbs[0].b[0])) is not None
+            res.check(bool(good), "C13.R6", site(rw, "callback-once"), "a dequeued thread's result is read once, cleared, and handed to the callback exactly once",
+                      "delivery does not read-and-clear the result and call the callback exactly once (clears %d, callbacks %d%s)" % (
+                          len(clr), len(cbs), ", with %s" % APE.vstr(cbs[0].b[0])[:60] if cbs and cbs[0].b else ""), rw.loc(evs[i].node), p.describe(rw))
+        if p.end == "exit":
+            # R7: leaves only when finished && nthreads == 0 and the queue is empty (the last evaluation of each part decides)
+            # by the field each test reads (the value tested may be what an earlier iteration stored there)
+            fin, nth, hd = [], [], []
+            for e in p.events:
+                if e.kind != "branch" or e.node is None or not (isinstance(e.a, tuple) and e.a[1] == "#0"):
+                    continue
+                flds = set(x.get("field") for x in walk(e.node) if x.get("k") == "MemberExpr" and x.get("rec") == "resultq")
+                for fld_ in ("finished", "nthreads", "head"):
+                    if re.search(r"->%s@\d+" % fld_, e.a[0]):
+                        flds = {fld_}
+                if flds == {"finished"}:
+                    fin.append(e.b)
+                elif flds == {"nthreads"}:
+                    nth.append(e.b)
+                elif flds == {"head"}:
+                    hd.append(e.b)
             good = fin and EQ not in fin[-1] and nth and nth[-1] == frozenset((EQ,)) and hd and hd[-1] == frozenset((EQ,))
-            res.check(bool(good), "C13.R7", site(rn, "result-thread-exit"), "result thread leaves iff finished, no job outstanding and queue empty",
+            res.check(bool(good), "C13.R7", site(rw, "result-thread-exit"), "result thread leaves iff finished, no job outstanding and queue empty",
                       "the result thread can leave while jobs are outstanding or the queue is not finished "
                       "(finished %s, nthreads %s, head %s)" % ([sorted(v) for v in fin], [sorted(v) for v in nth], [sorted(v) for v in hd]),
-                      rn.loc(rn.body), p.describe(rn))
-    rw = prog.need("result_worker", TP)
-    ev = APE.run(prog, cg, rw, bound=APE.BOUND)
-    for p in ev.paths:
-        evs = [e for e in p.events if e.kind == "call"]
-        for i, e in enumerate(evs):
-            if e.a != "resultq_next":
-                continue
-            c = p.cons.get((APE.vstr(e.c), "#0"))
-            nxt = []
-            for x in evs[i + 1:]:
-                if x.a == "resultq_next":
-                    break
-                nxt.append(x)
-            cbs = [x for x in nxt if x.a.startswith("(*") and "cb" in x.a]
-            if c is not None and EQ not in c:
-                if p.end == "cut" and not cbs:
-                    continue
-                good = len(cbs) == 1 and cbs[0].b[0] == e.outs.get(1)
-                res.check(good, "C13.R6", site(rw, "callback-once"), "the callback runs exactly once per delivered result, with that result",
-                          "the result callback runs %d time(s) for one delivered result" % len(cbs), rw.loc(e.node), p.describe(rw))
-            elif c == frozenset((EQ,)):
-                res.check(not cbs, "C13.R6", site(rw, "no-callback-at-end"), "no callback after the queue ended", "callback after the end", rw.loc(e.node))
+                      rw.loc(rw.body), p.describe(rw))
+    if ndeq == 0:
+        raise BrokenAnalysis("result_worker: no path that dequeues a thread and delivers its result")
     td = prog.need("threadpool_dispatch", TP)
     ev = APE.run(prog, cg, td, bound=APE.BOUND)
     for p in ev.paths:
@@ -725,9 +742,23 @@ def r4_r8(ctx, res):
     if exits == 0:
         res.bad("C13.R7", site(tw, "worker-exit"), "workers never exit: threadpool_destroy would hang in pthread_join", tw.loc(tw.body))
     tdd = prog.need("threadpool_destroy", TP)
-    wake = [n for n, lhs in field_stores(tdd, "thread", "running") if const_val(n["kids"][1]) == 1]
-    cbw = [n for n, lhs in field_stores(tdd, "thread", "cb")]
-    res.check(len(wake) == 1 and not cbw and tdd.calls("pthread_join"), "C13.R7", site(tdd, "wake-with-null-job"),
+    # by value on the paths of destroy (a shared "start this thread" helper may store the job fields as well - with NULL):
+    # every wake-up (running := true) leaves the thread's callback NULL, and the thread is joined afterwards
+    evd = APE.run(prog, cg, tdd, bound=APE.BOUND)
+    nwake = 0
+    okwake = True
+    for p in evd.paths:
+        evs = [e for e in p.events if e.kind != "branch"]
+        for i, e in enumerate(evs):
+            if not (e.kind == "store" and strip_tags(e.a).endswith("->running") and e.b[0] == "c" and e.b[1] != 0):
+                continue
+            nwake += 1
+            obj = strip_tags(e.a)[:-len("->running")]
+            cbst = [x for x in evs if x.kind == "store" and strip_tags(x.a) == obj + "->cb"]
+            joined = any(x.kind == "call" and x.a == "pthread_join" for x in evs[i + 1:]) or p.end == "cut"
+            if any(x.b != ("c", 0) for x in cbst) or not joined:
+                okwake = False
+    res.check(nwake >= 1 and okwake, "C13.R7", site(tdd, "wake-with-null-job"),
               "destroy wakes each idle worker with running := true and no job, then joins it",
               "threadpool_destroy does not wake idle workers with a NULL job before joining them", tdd.loc(tdd.body))
 
